@@ -656,6 +656,12 @@ class PowerExpression(BinaryExpression):
         return self.make_ml_tag("msup", "{}{}".format(left_ml, right_ml), self.classes)
 
     def operate(self, one: NumberType, two: NumberType) -> NumberType:
+        # numpy wraps integer powers at 64 bits and refuses negative integer
+        # exponents, so keep exact python ints when both operands are integers.
+        if isinstance(one, (int, np.integer)) and isinstance(two, (int, np.integer)):
+            if two >= 0:
+                return int(one) ** int(two)
+            one = float(one)
         return np.power(one, two)
 
     def __str__(self) -> str:
